@@ -649,3 +649,51 @@ def guarded_results(f, guard_pred, result_adt):
             for r in found:
                 pairs.append((tuple(vals), r, t.get("ln")))
     return pairs
+
+
+def fmt_pieces(c):
+    """Literal pieces of a lowered format_args! template constant (b"\\xc0\\x08: index \\xc0..."):
+    0xc0 = argument placeholder, 0x00 = end, n = literal of n bytes. -> list of str pieces ('{}' for holes)."""
+    if not (c.startswith('b"') and c.endswith('"')):
+        return None
+    body = c[2:-1]
+    try:
+        raw = bytes(body, "latin-1").decode("unicode_escape").encode("latin-1")
+    except Exception:
+        return None
+    out = []
+    i = 0
+    while i < len(raw):
+        b = raw[i]
+        if b == 0xC0:
+            out.append("{}")
+            i += 1
+        elif b == 0x00:
+            break
+        elif b < 0x80:
+            out.append(raw[i + 1:i + 1 + b].decode("utf-8", "replace"))
+            i += 1 + b
+        else:
+            # longer literal: 0x80|hi, lo  (two-byte length)
+            n = ((b & 0x7F) << 8) | raw[i + 1]
+            out.append(raw[i + 2:i + 2 + n].decode("utf-8", "replace"))
+            i += 2 + n
+    return out
+
+
+def fn_fmt_templates(f):
+    """All format templates mentioned in f, joined to a readable string each."""
+    out = []
+    for b in f.blocks:
+        ops = []
+        for s in b["st"]:
+            if s["s"] == "assign":
+                ops.extend(iter_operands_rv(s["rv"]))
+        if b["term"]["t"] in ("call", "tailcall"):
+            ops.extend(b["term"]["args"])
+        for o in ops:
+            if "c" in o and o["c"].startswith('b"') and o.get("ty", "").startswith("&[u8"):
+                p = fmt_pieces(o["c"])
+                if p is not None:
+                    out.append("".join(p))
+    return out
